@@ -223,6 +223,18 @@ class StmtMixin:
         return out
 
     # -- loops -------------------------------------------------------------------------------------------
+    def loop_ordinal(self, stmt, key):
+        """Ordinal of this `for` among the loops of the unit with the same iterable text, in source order."""
+        if not hasattr(self, "_loop_ord"):
+            self._loop_ord = {}
+            seen = {}
+            for n in ast.walk(self.unit_node):
+                if isinstance(n, ast.For):
+                    kk = ast.unparse(n.iter)
+                    self._loop_ord[id(n)] = seen.get(kk, 0)
+                    seen[kk] = seen.get(kk, 0) + 1
+        return self._loop_ord[id(stmt)]
+
     def assigned_names(self, stmts):
         names = set()
         for n in ast.walk(ast.Module(body=list(stmts), type_ignores=[])):
@@ -236,7 +248,7 @@ class StmtMixin:
         if stmt.orelse:
             raise Unsupported("for-else")
         key = ast.unparse(stmt.iter)
-        k = self.ordinal("loop:" + key)
+        k = self.loop_ordinal(stmt, key)
         lspec = getattr(self.spec, "loops", {}).get("%s#%d" % (key, k)) or getattr(self.spec, "loops", {}).get(key)
         return self._lift(self.eval(st, stmt.iter), lambda s, it: self.run_loop(s, stmt, it, lspec, "%s#%d" % (key, k)))
 
